@@ -572,6 +572,10 @@ def forked(fn, *args):
     if pid == 0:
         code = 0
         try:
+            import signal
+
+            signal.signal(signal.SIGALRM, signal.SIG_DFL)
+            signal.alarm(int(os.environ.get("VERIF_FORK_LIMIT", 120)))  # a command that never returns kills its child: the parent reports "died without a result"
             os.close(r)
             try:
                 res = dict(ok=True, value=fn(*args))
